@@ -132,6 +132,10 @@ class Gen:
             kw["uniqueItems"] = True
         if rng.random() < 0.2:
             kw["contains"] = self.spec(depth - 1)
+        if "additionalItems" not in kw and rng.random() < 0.15:
+            # legal next to single-schema or absent items too (no validation effect there, but it is a
+            # keyword of the element all the same)
+            kw["additionalItems"] = False if rng.random() < 0.5 else self.spec(0)
 
     def items(self, depth, required=False):
         rng = self.rng
